@@ -55,6 +55,15 @@ def _calls(f, key):
     return [i for i, blk in enumerate(f["blocks"]) if blk["term"][0] == "Call" and (blk["term"][1].get("resolved") or blk["term"][1].get("f")) == key]
 
 
+def _is_search_predicate(f):
+    if f["locals"][0]["ty"] != "bool": return False
+    import mir
+    try:
+        return bool(mir.Body(f).loops)
+    except Exception:
+        return False
+
+
 def _inline_one(caller, bi, callee):
     blk = caller["blocks"][bi]
     c = blk["term"][1]
@@ -96,6 +105,7 @@ def inline_new_helpers(d, ref):
             if f.get("impl_trait"): continue                       # a new trait impl method is reached by dispatch, not by a resolved call
             if len(by_key[k]) != 1 or len(f["blocks"]) > MAX_BLOCKS: continue
             if _calls(f, k): continue                              # directly recursive
+            if _is_search_predicate(f): continue                   # a loop that answers a bool: kept as an opaque predicate (rules look at what its body reads)
             # wrappers returning a coroutine / closure literal keep their identity (async fn)
             if any(st[0] == "A" and st[2][0] == "Agg" and st[2][1][0] in ("Coroutine", "CoroutineClosure") for blk in f["blocks"] for st in blk["stmts"]): continue
             helpers.append(f)
